@@ -169,7 +169,7 @@ Configure at least one of these settings:
 			IP:   ip,
 		}
 		c.Friends = append(c.Friends, friend)
-		c.FriendsByName[friend.Name] = friend
+		c.FriendsByName[friendNameKey(friend.Name)] = friend
 		c.FriendsByIP[friend.IP] = friend
 	}
 
@@ -190,7 +190,7 @@ Configure at least one of these settings:
 		forIPs := make([]netip.Addr, 0, len(svc.For))
 		for j, forIP := range svc.For {
 			// Check if entry is friend name.
-			friend, ok := c.FriendsByName[forIP]
+			friend, ok := c.FriendsByName[friendNameKey(forIP)]
 			if ok {
 				forIPs = append(forIPs, friend.IP)
 				continue
@@ -303,6 +303,17 @@ func CleanDomain(domain string) (cleaned string, valid bool) {
 	}
 
 	return domain, true
+}
+
+// friendNameKey returns the key under which a friend is filed in FriendsByName.
+// A friend is resolved as <name>.myco, so it is filed under the cleaned form
+// that domain names are looked up with.
+func friendNameKey(name string) string {
+	cleaned, valid := CleanDomain(name + DefaultDotTLD)
+	if !valid {
+		return strings.ToLower(name)
+	}
+	return strings.TrimSuffix(cleaned, DefaultDotTLD)
 }
 
 func (c *Config) addInPolicyKey(policyKey string, public bool, friends bool, forIPs []netip.Addr) error {
